@@ -89,7 +89,8 @@ def runVw (kv : List (String × String)) : String := Id.run do
   let some script := getS kv "W" | return "bad-op"
   let some ws := (script.splitOn "/").mapM parseWrite | return "bad-op"
   let V := cfg.native.lanes sz
-  let cls := clsOf (clsName == "fix") dims.length
+  -- slices of a TensorMap are always the generic n-D view classes, whatever the rank
+  let cls := if clsName == "mapdyn" then Cls.dynN else if clsName == "mapfix" then Cls.fixN else clsOf (clsName == "fix") dims.length
   let isDiag := clsName == "diag"
   -- FASTOR_NO_ALIAS=1 compiles the guard out of every view class: the flag is stored but never tested
   let nal := (getN kv "nal").getD 0 == 1
